@@ -1293,6 +1293,18 @@ class Engine:
         self.inlined.add(qual)
         node = source.prepared(node) if not getattr(node, '_pyvc_prepared', False) else node
         node._pyvc_prepared = True
+        kc_ = self.registry.by_target.get(qual) if self.registry is not None and hasattr(self.registry, 'by_target') else None
+        if kc_ is not None and kc_.loops and kc_ is not self.current and not getattr(node, '_pyvc_loops_tagged', False):
+            from .loops import number_loops
+            number_loops(node)
+            for n_ in ast.walk(node):
+                k_ = getattr(n_, '_pyvc_loop', None)
+                if k_ is not None and k_ in kc_.loops:
+                    n_._pyvc_loop_spec = kc_.loops[k_]
+                    n_._pyvc_loop_label = '%s#%d' % (qual.split('.')[-1], k_)
+                if k_ is not None:
+                    del n_._pyvc_loop
+            node._pyvc_loops_tagged = True
         is_method = self_obj is not None or self_val is not None
         b = self.bind_params(ctx, node, args, kwargs, skip_self=is_method)
         if b[0] in ('arity', 'symbolic-arity'):
